@@ -41,6 +41,7 @@ struct FlatSetEngine : EngineBase {
   Cmp cmp{kHarnessOrigin};
   Cmp2 cmp2{kHarnessOrigin};
   long held_nodes = 0;
+  bool reloc_mode = false;
 
   Val nv(int dom = 16) { return EI<E>::norm(Val(static_cast<int>(rng.below(dom)), ++paycnt)); }
   int other(int a) { int b = rng.below(NS - 1); return b >= a ? b + 1 : b; }
@@ -631,6 +632,27 @@ struct FlatSetEngine : EngineBase {
     verify();
   }
 
+  // C14: move the object to another address by a raw byte copy, abandon the source
+  template <class X>
+  bool relocate_obj(X *&obj, const char *what) {
+    if (!amc::is_trivially_relocatable<X>::value) return false;
+    MonScope m;
+    set_op("RELOCATE", what, "-", "");
+    X *n = static_cast<X *>(malloc(sizeof(X)));
+    memcpy(static_cast<void *>(n), static_cast<const void *>(obj), sizeof(X));
+    memset(static_cast<void *>(obj), 0xDD, sizeof(X));
+    free(obj);
+    obj = n;
+    ++counters["relocations"];
+    return true;
+  }
+  void op_reloc(int w) {
+    if (w < NS) relocate_obj(S[w], "set");
+    else if (w == NS) relocate_obj(T, "set(other-compare)");
+    else relocate_obj(V, "spare-vector");
+    verify();
+  }
+
   void op_other() {  // keep the differently ordered set T lively
     Val x = nv();
     if (TM->size() >= kMaxSet || rng.chance(1, 5)) {
@@ -675,6 +697,7 @@ struct FlatSetEngine : EngineBase {
       g_cur_op = i + 1;
       int a = rng.below(NS);
       uint32_t r = rng.below(100);
+      { bool rel = rng.chance(1, 7); int w = rng.below(NS + 2); if (reloc_mode && rel) op_reloc(w); if (g_cut) break; }
       if (r < 40) op_insert(a);
       else if (r < 55) op_erase(a);
       else if (r < 72) op_lookup(a);
@@ -710,6 +733,7 @@ int main(int argc, char **argv) {
   g_elem_relocatable = EI<Elem>::kRelocatable;
   g_selfswap_window = true;  // set engines: std::sort / inplace_merge / unique move elements on amc's behalf (DESIGN C02)
   static FlatSetEngine<Elem, Cmp, Cmp2, VecT> eng;
+  eng.reloc_mode = a.has("--reloc");
   long h = a.from;
   for (; h < a.to; ++h) {
     eng.run_history(a.seed, h, a.nops);
